@@ -21,7 +21,8 @@ INT_ASSUME = [
 
 CHECKS = {
     "C01": {"suites": [ENGINE, API], "assumptions": INT_ASSUME},
-    "C02": {"suites": [ENGINE, API], "assumptions": INT_ASSUME},
+    "C02": {"suites": [ENGINE, API, {"name": "validate", "suite": "validate", "quick": ["--count", 3000], "thorough": ["--count", 60000]},
+                       {"name": "validate-exh", "suite": "validate", "quick": ["--exh"], "thorough": ["--exh"]}], "assumptions": INT_ASSUME},
     "C03": {"suites": [ENGINE, API], "assumptions": INT_ASSUME},
     "C04": {"suites": [ENGINE, API], "assumptions": INT_ASSUME + ["optimisation fast path and root LP step are switched off by hook H4 in the engine-level runs (call-site findings)"]},
     "C05": {"suites": [PRUNE, PRUNE_EXH, ENGINE], "assumptions": INT_ASSUME, "exhaustive_in_thorough": True},
